@@ -383,7 +383,8 @@ func runCpx(ps int, enc, comp bool, script []string) (string, bool) {
 			}
 			var m *msg.UDPPacket
 			if t.kind == 'b' {
-				m = &msg.UDPPacket{Content: "!*", RemoteAddr: pxUserAddr(t.u)}
+				_, _ = conns[t.c].rw.Write(udpRawFrame("!*", nil, pxUserAddr(t.u)))
+				continue
 			} else {
 				m = udp.NewUDPPacket(pxPayload(t.kind == 'q', t.u, i, t.l, t.s), nil, pxUserAddr(t.u))
 				expB[t.c]++
@@ -504,8 +505,9 @@ func cpxExec(tok []string) string {
 		script = strings.Split(s, ",")
 	}
 	res, missing := runCpx(ps, enc, comp, script)
-	if missing {
-		res, _ = runCpx(ps, enc, comp, script)
+	if udpRerunWorthIt(missing) {
+		res, missing = runCpx(ps, enc, comp, script)
+		udpRerunDone(missing)
 	}
 	return res
 }
@@ -582,6 +584,9 @@ func getE2evPair(ps int, enc, comp bool) *e2evPair {
 	if p, ok := e2evPairs[key]; ok {
 		return p
 	}
+	if e2eDown["v/"+key] {
+		return nil
+	}
 	p := &e2evPair{be: newPxBackend(), enc: enc, cp: comp, ps: ps}
 	var scfg *v1.ServerConfig
 	for try := 0; ; try++ {
@@ -645,7 +650,8 @@ func getE2evPair(ps int, enc, comp bool) *e2evPair {
 			return p
 		}
 	}
-	panic("e2ev pair did not come up")
+	e2eDown["v/"+key] = true
+	return nil
 }
 
 func runE2ev(p *e2evPair, nv, k int, script []string) (string, bool) {
@@ -770,9 +776,13 @@ func e2evExec(tok []string) string {
 		script = strings.Split(s, ",")
 	}
 	p := getE2evPair(ps, enc, comp)
+	if p == nil {
+		return e2eNothing(k)
+	}
 	res, missing := runE2ev(p, nv, k, script)
-	if missing {
-		res, _ = runE2ev(p, nv, k, script)
+	if udpRerunWorthIt(missing) {
+		res, missing = runE2ev(p, nv, k, script)
+		udpRerunDone(missing)
 	}
 	return res
 }
@@ -829,7 +839,7 @@ func batchExec(tok []string) string {
 // others (also while answers are held back and while bursts are in flight), users whose address occurs on
 // several connections, connections taken away in three ways while the others carry traffic, re-opened
 // afterwards, and the proxy closed at the end.
-func cpxGenScript(rng *rand.Rand, ps, ntok, maxLen int) string {
+func cpxGenScript(rng *rand.Rand, ps, ntok, maxLen, bursts int) string {
 	toks := []string{"o"}
 	nconn := 1
 	aliveC := []int{0}
@@ -874,6 +884,40 @@ func cpxGenScript(rng *rand.Rand, ps, ntok, maxLen int) string {
 			toks = append(toks, dg("D"))
 		default:
 			toks = append(toks, dg("d"))
+		}
+	}
+	// bursts of 20 to 100 distinct payloads on a connection that stays: UDPPackets back to back on the work connection
+	// whose answers come back at once (D … d), or whose answers the backend keeps and then sends back to back (q … a:
+	// a burst of replies on the per-user sockets of the Forwarder); one user address, the addresses in turn, arbitrary
+	if bursts > 0 && len(aliveC) > 0 {
+		for b := 0; b < bursts; b++ {
+			g, bmax := burstShape(rng, ps)
+			if bmax > maxLen {
+				bmax = maxLen
+			}
+			c := pick(rng, aliveC)
+			kind := pick(rng, []string{"D", "q"})
+			mode, u0 := rng.Intn(3), rng.Intn(nu)
+			ln := sudpGenLen(rng, ps, bmax)
+			for i := 0; i < g; i++ {
+				u := u0
+				switch mode {
+				case 1:
+					u = (u0 + i) % nu
+				case 2:
+					u = rng.Intn(nu)
+				}
+				if rng.Intn(4) != 0 {
+					ln = sudpGenLen(rng, ps, bmax)
+				}
+				toks = append(toks, fmt.Sprintf("%s%d.%d.%d.%d", kind, c, u, ln, rng.Intn(1<<30)))
+			}
+			if kind == "q" {
+				toks = append(toks, "a")
+				held = 0
+			} else {
+				toks = append(toks, fmt.Sprintf("d%d.%d.%d.%d", c, u0, sudpGenLen(rng, ps, bmax), rng.Intn(1<<30)))
+			}
 		}
 	}
 	if held > 0 || rng.Intn(2) == 0 {
@@ -958,7 +1002,16 @@ func pxGen(rng *rand.Rand, n int, emit func(string)) {
 	// client side of the sudp proxy with several scripted work connections
 	for i := 0; i < n/100+4; i++ {
 		ps, maxLen := pxGenSizes(rng)
-		emit(fmt.Sprintf("cpx ps=%d enc=%d comp=%d s=%s", ps, rng.Intn(2), rng.Intn(2), cpxGenScript(rng, ps, 10+rng.Intn(40), maxLen)))
+		// the four encryption x compression settings in turn, then arbitrary ones; every fourth script carries bursts
+		enc, comp := i>>1&1, i&1
+		if i >= 4 {
+			enc, comp = rng.Intn(2), rng.Intn(2)
+		}
+		bursts := 0
+		if i%4 == 0 {
+			bursts = 1 + rng.Intn(2)
+		}
+		emit(fmt.Sprintf("cpx ps=%d enc=%d comp=%d s=%s", ps, enc, comp, cpxGenScript(rng, ps, 10+rng.Intn(40), maxLen, bursts)))
 	}
 	// several real visitors on one real sudp proxy (two frps + frpc pairs: plain, encrypted + compressed)
 	for i := 0; i < n/1000+2; i++ {
